@@ -503,6 +503,142 @@ def run_geom(ml, name, m0, idx, ops):
     return f"(CGeom {rowsq(X0.tolist())} {idxq} {opsq} {rowsq(X1.tolist())})", viol, {}
 
 
+# ------------------------------------------------------------------ view -> edit the parent -> move through the (now old) view
+def gen_stale(ctx, m0, randomise):
+    """Plan: optional pre-deletions + random coordinates, a view, 1-3 edits of the PARENT that do not delete view atoms
+    (del_atom before / after the view atoms, add_atom, remove_substituent), then moves through the view."""
+    rng = ctx.rng
+    n = m0.n_atoms
+    plan = {"coords": None, "predel": []}
+    alive = list(range(n))
+    if randomise:
+        plan["coords"] = [[float(Fr(rng.randint(-20480, 20480), 4096)) for _ in range(3)] for _ in range(n)]
+        plan["predel"] = sorted(rng.sample(range(n), rng.randint(0, max(0, min(4, n - 4)))), reverse=True)
+        alive = [i for i in alive if i not in plan["predel"]]
+    k = rng.randint(1, max(1, len(alive) // 2))
+    view = rng.sample(alive, k)
+    rest = [i for i in alive if i not in view]
+    edits = []
+    mode = rng.choice(["before", "after", "mixed", "mixed"])
+    for _ in range(rng.randint(1, 3)):
+        r = rng.random()
+        cand = [i for i in rest if (mode != "before" or i < max(view)) and (mode != "after" or i > min(view))] or rest
+        if r < 0.6 and cand:
+            i = rng.choice(cand)
+            rest.remove(i)
+            edits.append(["del", i])
+        elif r < 0.8:
+            edits.append(["add", [float(Fr(rng.randint(-4096, 4096), 256)) for _ in range(3)]])
+        elif rest:
+            edits.append(["rs", rng.choice(rest)])       # remove_substituent towards this atom, if that spares the view
+    if not any(e[0] == "del" for e in edits) and rest:
+        i = min(rest) if mode != "after" else max(rest)
+        edits.insert(0, ["del", i])
+    plan.update(view=view, edits=edits, ops=gen_gops(ctx, rng.randint(1, 2)))
+    return plan
+
+
+def run_stale(ml, name, m0, plan):
+    np = np_()
+    m = ml.Molecule(m0)
+    if plan["coords"] is not None:
+        m.coords = np.array(plan["coords"], dtype=float)
+    orig = list(m.atoms)                       # atoms are identified by OBJECT from here on
+    for i in plan["predel"]:
+        m.del_atom(orig[i])
+    view_atoms = [orig[i] for i in plan["view"]]
+    try:
+        sub = m.substructure(view_atoms)
+        applied = []
+        for e in plan["edits"]:
+            if e[0] == "del":
+                if orig[e[1]] in m.atoms:
+                    m.del_atom(orig[e[1]])
+                    applied.append("del")
+            elif e[0] == "add":
+                m.add_atom(ml.Atom("H"), e[1])
+                applied.append("add")
+            else:
+                a2 = orig[e[1]]
+                if a2 not in m.atoms:
+                    continue
+                nb = [a for a in m.connected_atoms(a2) if a not in view_atoms]
+                if not nb:
+                    continue
+                a1 = nb[0]
+                side = list(m.yield_bfs(a1, a2))
+                if any(a in view_atoms for a in side) or a1 in side:
+                    continue
+                m.remove_substituent(a1, a2)
+                applied.append("rs")
+        atoms_now = list(m.atoms)
+        post = [next(k for k, a in enumerate(atoms_now) if a is va) for va in view_atoms]
+        X0 = np.asarray(m.coords, dtype=float).copy()
+        if X0.shape[0] != len(atoms_now):
+            return None, None, {"skipped": "parent edit left atoms and coordinates misaligned (C05)"}
+        for kind, arg in plan["ops"]:
+            if kind == "t":
+                sub.translate(arg)
+            else:
+                sub.transform(np.array(arg))
+    except Exception as e:  # noqa
+        return None, ("substructure:raises-" + type(e).__name__, f"{name}: moving through a view after editing the parent raised {e!r} (plan {json.dumps(plan)[:300]})"), {}
+    X1 = np.asarray(m.coords, dtype=float).copy()
+    want = X0.copy()
+    for kind, arg in plan["ops"]:
+        if kind == "t":
+            want[post] = want[post] + np.array(arg)
+        else:
+            want[post] = want[post] @ np.array(arg)
+    others = [k for k in range(len(atoms_now)) if k not in set(post)]
+    viol = None
+    moved_others = [k for k in others if np.abs(X1[k] - X0[k]).max() > 0]
+    wrong_sel = [k for k in post if np.abs(X1[k] - want[k]).max() > 1e-9]
+    if X1.shape != X0.shape:
+        viol = ("substructure:stale-view-shape", f"{name}: coordinate array changed shape {X0.shape} -> {X1.shape}")
+    elif moved_others or wrong_sel:
+        viol = ("substructure:stale-view-wrong-atoms-moved",
+                f"{name}: view on atoms {plan['view']} (rows {post} after parent edits {applied}), then {[k for k, _ in plan['ops']]} through the view: "
+                f"rows {moved_others[:6]} of other atoms changed, selected rows {wrong_sel[:6]} are not where the rigid motion puts them")
+    else:
+        sv = shape_violation(X0, X1, post, 61)
+        if sv:
+            viol = ("substructure:stale-view-" + sv[0], f"{name}: {sv[1]}")
+    opsq = cq_list((f"(GTranslate {vq(a)})" if k == "t" else f"(GTransform {mq(a)})") for k, a in plan["ops"])
+    term = f"(CGeom {rowsq(X0.tolist())} (Some {natl(post)}) {opsq} {rowsq(X1.tolist())})"
+    return term, viol, {"edits": applied}
+
+
+def run_conf_view(ml, ens0, ci, idx, ops):
+    """substructure of a Conformer (a live view into the ensemble): only that conformer's selected rows move."""
+    np = np_()
+    ens = ml.ConformerEnsemble(ens0)
+    ens.coords = np.asarray(ens0.coords, dtype=float).copy()
+    E0 = np.asarray(ens.coords, dtype=float).copy()
+    try:
+        sub = ens[ci].substructure(idx)
+        for kind, arg in ops:
+            if kind == "t":
+                sub.translate(arg)
+            else:
+                sub.transform(np.array(arg))
+    except Exception as e:  # noqa
+        return None, ("substructure:conformer-raises-" + type(e).__name__, f"conformer {ci} substructure {idx}: {e!r}"), {}
+    E1 = np.asarray(ens.coords, dtype=float).copy()
+    viol = None
+    mask = np.ones(E0.shape[:2], dtype=bool)
+    mask[ci, sorted(set(idx))] = False
+    if np.abs(E1 - E0).max(axis=2)[mask].max() > 0:
+        bad = np.argwhere((np.abs(E1 - E0).max(axis=2) > 0) & mask).tolist()
+        viol = ("substructure:conformer-other-atoms-moved", f"moving substructure {idx} of conformer {ci} changed (conformer, atom) rows {bad[:6]}")
+    else:
+        sv = shape_violation(E0[ci], E1[ci], sorted(set(idx)), 71)
+        if sv:
+            viol = ("substructure:conformer-" + sv[0], f"conformer {ci}: {sv[1]}")
+    opsq = cq_list((f"(GTranslate {vq(a)})" if k == "t" else f"(GTransform {mq(a)})") for k, a in ops)
+    return f"(CGeom {rowsq(E0[ci].tolist())} (Some {natl(idx)}) {opsq} {rowsq(E1[ci].tolist())})", viol, {}
+
+
 def run_centroid(ml, name, m0):
     np = np_()
     X0 = np.asarray(m0.coords, dtype=float)
@@ -749,7 +885,24 @@ def all_cases(ctx):
             idxs, ref, vec = align_setup(ctx, m)
             rd = {"kind": "align", "mol": name, "idxs": idxs, "ref": ref.tolist(), "vec": vec}
             yield "align:molecule", ("align", name, json.dumps(idxs), json.dumps(ref.tolist())), rd, (lambda name=name, m=m, idxs=idxs, ref=ref, vec=vec: run_align_case(ml, name, m, idxs, ref, vec, rng.random()))
+    # view -> edit parent -> move through the view (bundled molecules, and randomised ones)
+    for name, m in mols:
+        if name.startswith("pentane") and not name.endswith("#0") and not ctx.thorough:
+            continue
+        for r in range(6 if not ctx.thorough else 30):
+            randomise = r % 3 == 2
+            plan = gen_stale(ctx, m, randomise)
+            rd = {"kind": "stale", "mol": name, "plan": plan}
+            yield "substructure:view-edit-move" + (":random" if randomise else ""), ("stale", name, json.dumps(plan)), rd, \
+                (lambda name=name, m=m, plan=plan: run_stale(ml, name, m, plan))
     ens = load_ens(ml)
+    for r in range(6 if not ctx.thorough else 40):
+        ci = rng.randrange(ens.n_conformers)
+        idx = rng.sample(range(ens.n_atoms), rng.randint(1, 8))
+        ops = gen_gops(ctx, rng.randint(1, 2))
+        rd = {"kind": "confview", "ci": ci, "idx": idx, "ops": ops}
+        yield "substructure:conformer-view", ("confview", ci, tuple(idx), json.dumps(ops)), rd, \
+            (lambda ci=ci, idx=idx, ops=ops: run_conf_view(ml, ens, ci, idx, ops))
     for r in range(6 if not ctx.thorough else 60):
         ops = gen_eops(ctx, ens, rng.randint(1, 4))
         rd = {"kind": "ens", "ops": ops}
@@ -903,10 +1056,14 @@ def replay(ctx, data):
             res = run_rotdih(ml, data["mol"], m, tuple(data["quad"]), data["p"], data["q"])
         elif k == "geom" and m is not None:
             res = run_geom(ml, data["mol"], m, data["idx"], [tuple(o) for o in data["ops"]])
+        elif k == "stale" and m is not None:
+            res = run_stale(ml, data["mol"], m, data["plan"])
         elif k == "centroid" and m is not None:
             res = run_centroid(ml, data["mol"], m)
         elif k == "align" and m is not None:
             res = run_align_case(ml, data["mol"], m, data["idxs"], np.array(data["ref"]), data["vec"], 0.5)
+        elif k == "confview":
+            res = run_conf_view(ml, load_ens(ml), data["ci"], data["idx"], [tuple(o) for o in data["ops"]])
         elif k == "ens":
             res = run_ens(ml, load_ens(ml), [tuple(o) for o in data["ops"]])
         elif k == "ensalign":
